@@ -802,6 +802,9 @@ class Generator(TreeListener):
 
         # Case 2: s is a symbol, e.g. MX(x)
         elif s.is_symbolic():
+            if s.name() == self.model.time.name():
+                # der(time) = 1
+                return 1
             ast_symbol = self.current_class.symbols.get(s.name())
             if ast_symbol is not None and (
                 "parameter" in ast_symbol.prefixes or "constant" in ast_symbol.prefixes
